@@ -290,6 +290,52 @@ func tokenTextArg(v ssa.Value, depth int) bool {
 			}
 		}
 		return len(x.Edges) > 0
+	case *ssa.Parameter:
+		// the parameter of an unexported function of the reader that is handed the token text at every call
+		fn := x.Parent()
+		if fn == nil || fn.Pkg == nil || fn.Object() == nil || fn.Object().Exported() {
+			return false
+		}
+		idx := -1
+		for i, p := range fn.Params {
+			if p == x {
+				idx = i
+			}
+		}
+		n := 0
+		var scan func(g *ssa.Function) bool
+		scan = func(g *ssa.Function) bool {
+			for _, b := range g.Blocks {
+				for _, in := range b.Instrs {
+					for _, op := range in.Operands(nil) {
+						if *op == ssa.Value(fn) {
+							ci, isCall := in.(ssa.CallInstruction)
+							if !isCall || ci.Common().Value != ssa.Value(fn) {
+								return false // used as a value: call sites unknown
+							}
+						}
+					}
+					if ci, ok := in.(ssa.CallInstruction); ok && ci.Common().StaticCallee() == fn && idx < len(ci.Common().Args) {
+						n++
+						if !tokenTextArg(ci.Common().Args[idx], depth+1) {
+							return false
+						}
+					}
+				}
+			}
+			for _, an := range g.AnonFuncs {
+				if !scan(an) {
+					return false
+				}
+			}
+			return true
+		}
+		for _, mem := range fn.Pkg.Members {
+			if g, ok := mem.(*ssa.Function); ok && !scan(g) {
+				return false
+			}
+		}
+		return n > 0
 	}
 	return false
 }
